@@ -128,6 +128,63 @@ func c07Burst(c *Ctx, name string, threads int, expired bool, b vsched.Bounds, w
 	}
 }
 
+// c07EvictedInFlight: a store-backed cache whose single shard holds one entry. The fetch of an uncacheable key
+// is in flight while a request for another key pushes its entry out of the shard. Once everything has ended, the
+// next two requests for the key fall into the hit-for-pass period (the marker was persisted): both must pass.
+func c07EvictedInFlight(c *Ctx, name string, b vsched.Bounds) Sched {
+	cfg := env.BasicConfig(config.CacheConfig{HitForPass: "300s", Store: "fault://c07evict"})
+	return Sched{
+		Name:   name,
+		Bounds: b,
+		Setup: func() ([]func(), func(*vsched.Exec) *vsched.Violation, func() string) {
+			st := env.NewFaultStore()
+			st.Register("fault://c07evict")
+			e := getEnv(cfg, "c07evict")
+			freshCaches(cfg)
+			oneShard("c1", 1, st)
+			vtime.Set(vtime.Base)
+			vsched.ClockStart = vtime.Base
+			e.Respond = func(oc *env.OriginCall) env.OriginResp {
+				if oc.Path == "/u" {
+					return env.Uncacheable(oc, "p")
+				}
+				return env.Cacheable(oc, 60, "p")
+			}
+			e.Events()
+			bodies := []func(){
+				func() { e.Do(env.Req{URI: "/u", Rid: "t0"}) },
+				func() { e.Do(env.Req{URI: "/other", Rid: "t1"}) },
+			}
+			var an *analysis
+			obs := ""
+			check := func(x *vsched.Exec) *vsched.Violation {
+				an = analyze(e.Events())
+				if x.Deadlock || x.Livelock || len(x.Panics) > 0 {
+					return nil
+				}
+				if v := an.selfCheck(); v != nil {
+					return v
+				}
+				// epilogue (sequential): the key was shown to be uncacheable a moment ago
+				var labels []string
+				for i := 0; i < 2; i++ {
+					r := e.Do(env.Req{URI: "/u", Rid: fmt.Sprintf("e%d", i)})
+					labels = append(labels, r.XStatus)
+				}
+				obs = fmt.Sprint(labels)
+				e.Events()
+				for i, l := range labels {
+					if l != "hitForPass" {
+						return &vsched.Violation{Sig: "label-" + l + "-during-period", Msg: fmt.Sprintf("the fetch of /u ended uncacheable (its entry was evicted while it was in flight, the cache has a store); follow-up request %d inside the period was labelled %s, labels %v", i, l, labels)}
+					}
+				}
+				return nil
+			}
+			return bodies, check, func() string { return an.summary() + obs }
+		},
+	}
+}
+
 func init() {
 	Register("C07", func(c *Ctx) {
 		c.Out.Rule = "(1) BFS over timed histories {GET with origin answer cacheable/uncacheable/error, tick+1, tick+P} per hit-for-pass configuration, each step compared with the entry specification (label, origin contact, body, Age); (2) every bounded schedule of 3 concurrent requests during the period (must all pass, never queue; a directed schedule must reach all inside the origin at once) and right after it (single probe); non-trivial = every BFS transition / deviating schedule"
@@ -165,6 +222,7 @@ func init() {
 		c.RunSched(c07Burst(c, "period-burst3", 3, false, vsched.Bounds{Preempt: pre, Tick: 0, Data: -1, Total: -1}, false))
 		c.RunSched(c07Burst(c, "period-burst3-witness", 3, false, vsched.Bounds{Preempt: 0, Tick: 0, Data: 0, Total: 0}, true))
 		c.RunSched(c10Waiters(c, "cold-burst-uncacheable-store-faults", true, vsched.Bounds{Preempt: pre, Tick: 0, Data: 2, Total: pre + 1}))
+		c.RunSched(c07EvictedInFlight(c, "evicted-in-flight-store", vsched.Bounds{Preempt: pre, Tick: 0, Data: -1, Total: -1}))
 		c.RunSched(c07Burst(c, "probe-burst3", 3, true, vsched.Bounds{Preempt: pre, Tick: 0, Data: -1, Total: -1}, false))
 		if c.Thorough() {
 			c.RunSched(c07Burst(c, "period-burst4", 4, false, vsched.Bounds{Preempt: 2, Tick: 0, Data: -1, Total: -1}, false))
